@@ -24,6 +24,7 @@ class CallMixin:
         if isinstance(f, ast.Attribute) and f.attr == '_log_exception_debug':
             yield st, NoneV()
             return
+        st = self.at_call_hooks(node, st, frame)
         for st1, fv in self.ev(f, st, frame):
             # spec builtins take unevaluated args (lambdas, old)
             if isinstance(fv, FuncV) and fv.kind == 'specbuiltin':
@@ -60,6 +61,39 @@ class CallMixin:
                 for st3, kvals in self.ev_list([k.value for k in kwn], st2, frame):
                     kwargs = {k.arg: v for k, v in zip(kwn, kvals)}
                     yield from self.call(fv, args, kwargs, st3, frame, node)
+
+    def at_call_hooks(self, node, st, frame):
+        """at_calls of the contract under verification: assertions (and ghost statements) attached to call sites,
+        keyed by the source text of the callee expression ('self.async_updates', 'packets_data.append') or by its
+        last attribute name."""
+        if st.spec or not frame.verifying or frame.contract is None:
+            return st
+        view = getattr(frame, 'view', None)
+        ac = view.at_calls if view is not None else frame.contract.at_calls
+        if not ac:
+            return st
+        f = node.func
+        text = ast.unparse(f)
+        specs = ac.get(text)
+        if specs is None and isinstance(f, ast.Attribute):
+            specs = ac.get(f.attr)
+        if specs is None and isinstance(f, ast.Name):
+            specs = ac.get(f.id)
+        if not specs:
+            return st
+        name = f.attr if isinstance(f, ast.Attribute) else text
+        for i, e in enumerate(specs):
+            if e.startswith('ghost:'):
+                outs = self.exec_block(ast.parse(e[6:].strip()).body, st, frame)
+                if len(outs) != 1 or outs[0].kind != 'normal':
+                    raise VCError('ghost statement must not fork: %s' % e)
+                st = outs[0].st
+                continue
+            sp = st.fork()
+            sp.spec = True
+            sp.pc = st.pc
+            self.oblige(st, self.spec_bool(e, sp, frame), 'at-call[%s]#%d' % (name, i), frame, node, e)
+        return st
 
     # ---- dispatch -----------------------------------------------------------------------------
     def call(self, fv, args, kwargs, st, frame, node):
@@ -181,17 +215,6 @@ class CallMixin:
     def call_func(self, f, args, kwargs, st, frame, node, static_cls=None):
         ctx = self.ctx
         key = (f.module, f.qualname)
-        ac = None
-        if frame.verifying and frame.contract is not None:
-            ac = getattr(frame, 'view', None).at_calls if getattr(frame, 'view', None) is not None else frame.contract.at_calls
-        if ac:
-            specs = ac.get(f.node.name) or ac.get(f.qualname)
-            if specs:
-                sp = st.fork()
-                sp.spec = True
-                sp.pc = st.pc
-                for i, e in enumerate(specs):
-                    self.oblige(st, self.spec_bool(e, sp, frame), 'at-call[%s]#%d' % (f.node.name, i), frame, node, e)
         c = ctx.contracts.get(key)
         being_verified = frame.verifying and frame.finfo is f
         if c is not None and not (frame.contract is not None and key in
